@@ -349,6 +349,9 @@ def priors_native(vc):
         k = str(rng.choice(["G", "E", "U"]))
         if k == "G":
             mu, sg = rng.normal(size=m) * 10 ** rng.uniform(-2, 3), 10 ** rng.uniform(-3, 3, size=m)
+            if rng.random() < 0.3:          # any hyper-parameter value: widths whose square is not a double
+                sg = sg * 10.0 ** float(rng.choice([-200, 200]))
+                mu = mu * sg
             comps.append(pr.GaussianPrior(mean=mu, sigma=sg, variable_indices=vs))
             spec += [(v, stats.norm(loc=a, scale=b), (None, None)) for v, a, b in zip(vs, mu, sg)]
         elif k == "E":
@@ -381,9 +384,17 @@ def priors_native(vc):
     g = J.gradient(theta)
     ok = True
     for v in range(n_total):
-        h = 1e-6 * max(1e-3, abs(theta[v]), by_var[v][0].std())
-        fd = (by_var[v][0].logpdf(theta[v] + h) - by_var[v][0].logpdf(theta[v] - h)) / (2 * h)
-        ok = ok and abs(g[v] - fd) <= 1e-4 * max(1.0, abs(fd)) + 1e-9
+        dist = by_var[v][0]
+        # derivative of the named log-density in closed form (a difference quotient has no usable step when the width is 1e-200
+        # of the location): normal -(x - a)/b^2, exponential -1/b, uniform 0
+        kw_ = dist.kwds
+        if dist.dist.name == "norm":
+            dv = -((theta[v] - kw_["loc"]) / kw_["scale"]) / kw_["scale"]
+        elif dist.dist.name == "expon":
+            dv = -1.0 / kw_["scale"]
+        else:
+            dv = 0.0
+        ok = ok and np.isfinite(g[v]) and abs(g[v] - dv) <= 1e-9 * abs(dv)
     vc.ensures("joint_gradient_is_derivative_per_index", bool(ok))
     vc.ensures("bounds_are_the_support_per_index",
                all((J.bounds[v][0] is None) == (by_var[v][1][0] is None) and (J.bounds[v][1] is None) == (by_var[v][1][1] is None)
@@ -423,7 +434,7 @@ def priors_native(vc):
         total = quad(dens, a, b, points=pts, limit=200)[0]
         vc.ensures("single_density_integrates_to_one", abs(total - 1) < 1e-4)
     # posterior = likelihood + prior
-    lik = pr.GaussianPrior(mean=np.zeros(n_total), sigma=np.ones(n_total), variable_indices=list(range(n_total)))
+    lik = pr.GaussianPrior(mean=np.zeros(n_total), sigma=np.maximum(1.0, np.abs(theta)), variable_indices=list(range(n_total)))   # (representable at theta)
     P = Posterior(likelihood=lik, prior=J)
     vc.ensures("posterior_is_sum", abs(P(theta) - (lik(theta) + J(theta))) <= 1e-9 * max(1, abs(P(theta)))
                and np.allclose(P.gradient(theta), lik.gradient(theta) + J.gradient(theta))
